@@ -8,6 +8,7 @@
 mod a_check;
 mod canon;
 mod entropy;
+mod f_check;
 mod gen;
 mod h_check;
 mod rng;
@@ -15,6 +16,7 @@ mod runner;
 mod sched;
 mod walker;
 mod world_a;
+mod world_f;
 mod world_h;
 
 use std::time::Instant;
@@ -49,6 +51,7 @@ fn main() {
             let agg = match world {
                 "H" => h_check::worker(tier, seed, from, to, extra),
                 "A" => a_check::worker(tier, seed, from, to, extra),
+                "F" => f_check::worker(tier, seed, from, to, extra),
                 _ => usage(),
             };
             std::fs::write(out, serde_json::to_string(&agg).unwrap()).unwrap();
@@ -66,6 +69,7 @@ fn main() {
             match prop {
                 "C04" | "C20" => h_check::check(prop, tier, started),
                 "C11" | "C12" => a_check::check(prop, tier, started),
+                "C19" => f_check::check(tier, started),
                 _ => usage(),
             }
         }
@@ -84,6 +88,7 @@ fn main() {
             match v["world"].as_str() {
                 Some("H") => h_check::replay(&v, &args[2]),
                 Some("A") => a_check::replay(&v, &args[2]),
+                Some("F") => f_check::replay(&v, &args[2]),
                 _ => {
                     eprintln!("HARNESS-ERROR: unknown world in replay file");
                     2
@@ -97,6 +102,7 @@ fn main() {
             match args[2].as_str() {
                 "H" => h_check::selftest(),
                 "A" => a_check::selftest(),
+                "F" => f_check::selftest(),
                 _ => usage(),
             }
         }
